@@ -16,5 +16,5 @@ def run(tier, replay=None):
         K.run_into(out, build, problems, PROP, tier, ['spec_C16'], lambda rng, n: G.gen_many(rng, n), 1200, 25000, RULE_C,
                    replay=replay)
     if not replay or is_elab_replay:
-        E.run(out, build, problems, PROP, tier, ['spec_C04'], E.default_gen, 500, 10000, RULE_E, replay=replay, known={'spec_C04': 'kf_C04_accept_all'})
+        E.run(out, build, problems, PROP, tier, ['spec_C04', 'spec_C16_order'], E.default_gen, 500, 10000, RULE_E, replay=replay, known={'spec_C04': 'kf_C04_accept_all'})
     return out.finish()
